@@ -99,6 +99,8 @@ def ser(t):
         return '%s %s %s' % (k, ser(t[1]), ser(t[2]))
     if k in ('AND', 'OR'):
         return '%s %d %s' % (k, len(t[1]), ' '.join(ser(e) for e in t[1]))
+    if k in ('insub', 'notinsub'):
+        return '%s %s q%d' % (k, ser(t[1]), t[2])
     if k in ('in', 'notin'):
         return ' '.join([k, ser(t[1]), str(len(t[2]))] + ['N' if i is None else ser(i) for i in t[2]])
     raise ValueError(k)
@@ -125,6 +127,22 @@ def size(t):
         elif isinstance(x, list):
             n += sum(size(i) if i is not None else 1 for i in x)
     return n
+
+
+_subq = []
+
+
+def subqueries():
+    """fixed sub-selects over column b for the oracle-only IN-subquery stream: (Select, values)"""
+    if not _subq:
+        from sqlobject import sqlbuilder as sb
+        e = env()
+        q = e['cls'].q
+        bs = [b for _, _, b in e['rows']]
+        _subq.append((sb.Select([q.b], where=(q.b != None)), [b for b in bs if b is not None]))  # noqa: E711
+        _subq.append((sb.Select([q.b]), bs))
+        _subq.append((sb.Select([q.b], where=(q.b > 5)), []))
+    return _subq
 
 
 # --------------------------------------------------------------------------- real construction
@@ -194,6 +212,10 @@ def build_real(t, flip=0):
             items = tuple(items)
         x = build_real(t[1], flip)
         return sb.IN(x, items) if k == 'in' else sb.NOTIN(x, items)
+    if k in ('insub', 'notinsub'):
+        x = build_real(t[1], flip)
+        sel = subqueries()[t[2]][0]
+        return sb.IN(x, sel) if k == 'insub' else sb.NOTIN(x, sel)
     if k == 'isnull':
         return sb.ISNULL(build_real(t[1], flip))
     if k == 'isnotnull':
@@ -305,6 +327,9 @@ def ev(t, row):
     if k in ('in', 'notin'):
         v = in_sem(ev(t[1], row), [None if i is None else ev(i, row) for i in t[2]])
         return v if k == 'in' else not3(v)
+    if k in ('insub', 'notinsub'):
+        v = in_sem(ev(t[1], row), subqueries()[t[2]][1])
+        return v if k == 'insub' else not3(v)
     if k in ('isnull', 'eqnone'):
         return ev(t[1], row) is None
     if k in ('isnotnull', 'nenone'):
@@ -515,7 +540,15 @@ def run_impl(t, flip=0):
     return res
 
 
-def oracle(t, res):
+def has_sub(t):
+    if isinstance(t, tuple):
+        return t[0] in ('insub', 'notinsub') or any(has_sub(x) for x in t[1:])
+    if isinstance(t, list):
+        return any(has_sub(x) for x in t)
+    return False
+
+
+def oracle(t, res, text_level=True):
     """list of (kind, text) property failures of the implementation on tree t (independent of the Lean model)"""
     e = env()
     fails = []
@@ -539,7 +572,7 @@ def oracle(t, res):
                           % (got, exp, res['texts'].get('sqlite'))))
     exp = ''.join(show3(v) for _, v in want)
     done = {}
-    for d in DIALECTS:
+    for d in (DIALECTS if text_level else []):
         txt = res['texts'][d]
         if txt in done:
             # same text as an earlier dialect: same findings, reported once
@@ -656,6 +689,20 @@ def rnd_bool(rng, d):
     return (rng.choice(['not~', 'NOT']), rnd_bool(rng, d - 1))
 
 
+def rnd_bool_sub(rng, d):
+    """boolean tree whose leaves may be IN / NOT IN against a sub-select (oracle-only stream)"""
+    if d <= 1 or rng.random() < 0.25:
+        if rng.random() < 0.7:
+            return (rng.choice(['insub', 'notinsub']), rnd_num(rng, rng.choice([0, 0, 1, 2])), rng.randint(0, 2))
+        return rnd_bool(rng, 1)
+    r = rng.random()
+    if r < 0.4:
+        return (rng.choice(['and&', 'or|']), rnd_bool_sub(rng, d - 1), rnd_bool_sub(rng, d - 1))
+    if r < 0.7:
+        return (rng.choice(['AND', 'OR']), [rnd_bool_sub(rng, d - 1) for _ in range(rng.choice([1, 2, 3]))])
+    return (rng.choice(['not~', 'NOT']), rnd_bool_sub(rng, d - 1))
+
+
 NUM_KINDS = ['leaf'] + ['ar-' + o for o in AR] + ['neg', 'pos']
 BOOL_KINDS = (['cmp-' + o for o in CMP] + ['and&', 'or|', 'AND', 'OR', 'not~', 'NOT', 'in', 'notin',
                                            'isnull', 'isnotnull', 'eqnone', 'nenone'])
@@ -728,7 +775,7 @@ def load_corpus():
 def from_json(x):
     if isinstance(x, list):
         if x and isinstance(x[0], str) and x[0] in (['c', 'k', 'ar', 'neg', 'pos', 'cmp', 'and&', 'or|', 'AND', 'OR', 'not~', 'NOT',
-                                                     'in', 'notin', 'isnull', 'isnotnull', 'eqnone', 'nenone']):
+                                                     'in', 'notin', 'insub', 'notinsub', 'isnull', 'isnotnull', 'eqnone', 'nenone']):
             k = x[0]
             if k in ('AND', 'OR'):
                 return (k, [from_json(e) for e in x[1]])
@@ -749,8 +796,8 @@ def gen_cases(ctx):
     for n in num_depth1():
         cases.append(('cmp', rng.choice(CMP), n, rng.choice(leaves_num())))
         cases.append(('cmp', rng.choice(CMP), rng.choice(leaves_num()), n))
-    cases += shapes_depth2(rng, 8 if deep else 3)
-    nrand = ctx.budget(5000, 120000)
+    cases += shapes_depth2(rng, 10 if deep else 4)
+    nrand = ctx.budget(9000, 150000)
     for _ in range(nrand):
         cases.append(rnd_bool(rng, rng.choice([2, 3, 3, 4, 4, 5, 6])))
     return cases, n_corpus
@@ -815,303 +862,6 @@ def shrink(t, budget=400):
     return best
 
 
-# --------------------------------------------------------------------------- running one tree on the real code
-def run_impl(t, flip=0):
-    """returns dict: texts per dialect (or 'error:<name>'), selected ids, three-valued column from SQLite"""
-    from sqlobject.sqlbuilder import sqlrepr
-    e = env()
-    res = {'texts': {}, 'ids': None, 'vals': None}
-    try:
-        expr = build_real(t, flip)
-    except Exception as ex:
-        res['build_error'] = type(ex).__name__
-        return res
-    for d in DIALECTS:
-        try:
-            res['texts'][d] = sqlrepr(expr, d)
-        except Exception as ex:
-            res['texts'][d] = 'error:%s' % type(ex).__name__
-    try:
-        res['ids'] = sorted(o.id for o in e['cls'].select(expr))
-    except Exception as ex:
-        res['ids'] = 'error:%s' % type(ex).__name__
-    txt = res['texts'].get('sqlite', 'error')
-    if not txt.startswith('error'):
-        try:
-            q = 'SELECT id, %s FROM %s ORDER BY id' % (txt, e['table'])
-            res['vals'] = [(r[0], r[1]) for r in e['conn'].queryAll(q)]
-        except Exception as ex:
-            res['vals'] = 'error:%s' % type(ex).__name__
-    return res
-
-
-def oracle(t, res):
-    """list of (kind, text) property failures of the implementation on tree t (independent of the Lean model)"""
-    e = env()
-    fails = []
-    if 'build_error' in res:
-        return [('build-error', 'constructing the expression raised %s' % res['build_error'])]
-    try:
-        want = [(rid, ev(t, (a, b))) for rid, a, b in e['rows']]
-    except Overflow:
-        return None
-    want_ids = sorted(rid for rid, v in want if v is True)
-    if res['ids'] != want_ids:
-        fails.append(('wrong-rows', 'select(expr) returned ids %s, three-valued evaluation of the tree selects %s; SQL: %s'
-                      % (res['ids'], want_ids, res['texts'].get('sqlite'))))
-    if isinstance(res['vals'], str) or res['vals'] is None:
-        fails.append(('sqlite-error', 'SQLite rejects the rendered expression (%s): %s' % (res['vals'], res['texts'].get('sqlite'))))
-    else:
-        got = ''.join(show3(None if v is None else (v != 0)) for _, v in res['vals'])
-        exp = ''.join(show3(v) for _, v in want)
-        if got != exp:
-            fails.append(('wrong-value', 'SQLite evaluates the rendered expression per row to %s, the tree means %s; SQL: %s'
-                          % (got, exp, res['texts'].get('sqlite'))))
-    for d in DIALECTS:
-        txt = res['texts'][d]
-        if txt.startswith('error:'):
-            fails.append(('render-error', 'sqlrepr(expr, %r) raised %s' % (d, txt[6:])))
-            continue
-        for p in text_problems(txt):
-            fails.append((p, 'dialect %s: %s in %s' % (d, p, txt)))
-        toks, prob = tokenise(txt)
-        if toks is None:
-            fails.append(('lex', 'dialect %s: %s: %s' % (d, prob, txt)))
-            continue
-        try:
-            ast_ = ref_parse(toks)
-            got = ''.join(show3(None if v is None else (v != 0)) for v in (ev_ast(ast_, (a, b)) for _, a, b in e['rows']))
-        except ParseError as ex:
-            fails.append(('unparsable', 'dialect %s: the reference SQL parser rejects %s (%s)' % (d, txt, ex)))
-            continue
-        except Overflow:
-            continue
-        exp = ''.join(show3(v) for _, v in want)
-        if got != exp:
-            fails.append(('captured', 'dialect %s: read with SQL precedences the text %s means %s per row, the tree means %s'
-                          % (d, txt, got, exp)))
-    return fails
-
-
-# --------------------------------------------------------------------------- generators
-def leaves_num():
-    return [('c', 0), ('c', 1)] + [('k', v) for v in CONSTS]
-
-
-def num_depth1():
-    L = leaves_num()
-    out = []
-    for op in AR:
-        for l in L:
-            for r in L:
-                out.append(('ar', op, l, r))
-    for x in L:
-        out.append(('neg', x))
-        out.append(('pos', x))
-    return out
-
-
-def item_lists():
-    items = [None, ('k', -1), ('k', 0), ('k', 2), ('c', 1)]
-    out = [[]]
-    out += [[i] for i in items]
-    out += [[i, j] for i in items for j in items]
-    return out
-
-
-def bool_depth1():
-    L = leaves_num()
-    out = []
-    for op in CMP:
-        for l in L:
-            for r in L:
-                out.append(('cmp', op, l, r))
-    for k in ('isnull', 'isnotnull', 'eqnone', 'nenone'):
-        for x in L:
-            if k in ('eqnone', 'nenone') and x[0] == 'k':
-                continue
-            out.append((k, x))
-    for k in ('in', 'notin'):
-        for x in L:
-            for items in item_lists():
-                out.append((k, x, items))
-    return out
-
-
-def rnd_leaf(rng):
-    r = rng.random()
-    if r < 0.55:
-        return ('c', rng.randint(0, 1))
-    return ('k', rng.choice(CONSTS + [1, -2, 3]))
-
-
-def rnd_num(rng, d):
-    if d <= 0 or rng.random() < 0.3:
-        return rnd_leaf(rng)
-    r = rng.random()
-    if r < 0.7:
-        return ('ar', rng.choice(AR), rnd_num(rng, d - 1), rnd_num(rng, d - 1))
-    return (rng.choice(['neg', 'neg', 'pos']), rnd_num(rng, d - 1))
-
-
-def rnd_items(rng, d):
-    n = rng.choice([0, 1, 1, 2, 2, 3, 4])
-    return [None if rng.random() < 0.25 else rnd_num(rng, min(d, rng.choice([0, 0, 1, 2]))) for _ in range(n)]
-
-
-def rnd_bool(rng, d):
-    if d <= 1 or rng.random() < 0.2:
-        r = rng.random()
-        dn = max(0, d - 1)
-        if r < 0.5:
-            return ('cmp', rng.choice(CMP), rnd_num(rng, dn), rnd_num(rng, dn))
-        if r < 0.75:
-            return (rng.choice(['in', 'notin']), rnd_num(rng, dn), rnd_items(rng, dn))
-        k = rng.choice(['isnull', 'isnotnull', 'eqnone', 'nenone'])
-        x = rnd_num(rng, dn)
-        if k in ('eqnone', 'nenone') and x[0] == 'k':
-            x = ('c', rng.randint(0, 1))
-        return (k, x)
-    r = rng.random()
-    if r < 0.4:
-        return (rng.choice(['and&', 'or|']), rnd_bool(rng, d - 1), rnd_bool(rng, d - 1))
-    if r < 0.7:
-        n = rng.choice([1, 2, 2, 3, 4])
-        return (rng.choice(['AND', 'OR']), [rnd_bool(rng, d - 1) for _ in range(n)])
-    return (rng.choice(['not~', 'NOT']), rnd_bool(rng, d - 1))
-
-
-NUM_KINDS = ['leaf'] + ['ar-' + o for o in AR] + ['neg', 'pos']
-BOOL_KINDS = (['cmp-' + o for o in CMP] + ['and&', 'or|', 'AND', 'OR', 'not~', 'NOT', 'in', 'notin',
-                                           'isnull', 'isnotnull', 'eqnone', 'nenone'])
-
-
-def num_of_kind(rng, kind, leaf=None):
-    leaf = leaf or (lambda: rnd_leaf(rng))
-    if kind == 'leaf':
-        return leaf()
-    if kind.startswith('ar-'):
-        return ('ar', kind[3:], leaf(), leaf())
-    return (kind, leaf())
-
-
-def col_leaf(rng):
-    return ('c', rng.randint(0, 1))
-
-
-def bool_of_kind(rng, kind, sub_num=None, sub_bool=None):
-    sub_num = sub_num or (lambda: rnd_leaf(rng))
-    sub_bool = sub_bool or (lambda: ('cmp', rng.choice(CMP), rnd_leaf(rng), rnd_leaf(rng)))
-    if kind.startswith('cmp-'):
-        return ('cmp', kind[4:], sub_num(), sub_num())
-    if kind in ('and&', 'or|'):
-        return (kind, sub_bool(), sub_bool())
-    if kind in ('AND', 'OR'):
-        return (kind, [sub_bool() for _ in range(rng.choice([1, 2, 3]))])
-    if kind in ('not~', 'NOT'):
-        return (kind, sub_bool())
-    if kind in ('in', 'notin'):
-        n = rng.choice([0, 1, 2, 3])
-        return (kind, sub_num(), [None if rng.random() < 0.3 else sub_num() for _ in range(n)])
-    x = sub_num()
-    if kind in ('eqnone', 'nenone') and x[0] == 'k':
-        x = col_leaf(rng)
-    return (kind, x)
-
-
-def shapes_depth2(rng, reps):
-    """every (parent, child kinds) combination of depth 2, `reps` leaf assignments each"""
-    out = []
-    for _ in range(reps):
-        for pk in BOOL_KINDS:
-            if pk.startswith('cmp-') or pk in ('in', 'notin', 'isnull', 'isnotnull', 'eqnone', 'nenone'):
-                for k1 in NUM_KINDS:
-                    for k2 in NUM_KINDS:
-                        kinds = iter([k1, k2, k1, k2, k1])
-                        out.append(bool_of_kind(rng, pk, sub_num=lambda: num_of_kind(rng, next(kinds))))
-            else:
-                for k1 in BOOL_KINDS:
-                    for k2 in BOOL_KINDS:
-                        kinds = iter([k1, k2, k1, k2])
-                        out.append(bool_of_kind(rng, pk, sub_bool=lambda: bool_of_kind(rng, next(kinds))))
-    return out
-
-
-def load_corpus():
-    import os
-    import json
-    d = os.path.join(os.path.dirname(os.path.dirname(os.path.abspath(__file__))), 'corpus', 'C03')
-    out = []
-    if os.path.isdir(d):
-        for fn in sorted(os.listdir(d)):
-            if fn.endswith('.json'):
-                for item in json.load(open(os.path.join(d, fn))):
-                    out.append(from_json(item))
-    return out
-
-
-def from_json(x):
-    if isinstance(x, list):
-        if x and isinstance(x[0], str) and x[0] in (['c', 'k', 'ar', 'neg', 'pos', 'cmp', 'and&', 'or|', 'AND', 'OR', 'not~', 'NOT',
-                                                     'in', 'notin', 'isnull', 'isnotnull', 'eqnone', 'nenone']):
-            k = x[0]
-            if k in ('AND', 'OR'):
-                return (k, [from_json(e) for e in x[1]])
-            if k in ('in', 'notin'):
-                return (k, from_json(x[1]), [None if i is None else from_json(i) for i in x[2]])
-            return tuple([k] + [from_json(e) if isinstance(e, list) else e for e in x[1:]])
-        return [from_json(e) for e in x]
-    return x
-
-
-def gen_cases(ctx):
-    rng = ctx.rng
-    deep = ctx.deep or ctx.tier == 'thorough'
-    cases = list(load_corpus())
-    n_corpus = len(cases)
-    cases += bool_depth1()
-    # numeric depth 1 under a comparison with each leaf kind on the other side, both orders
-    for n in num_depth1():
-        cases.append(('cmp', rng.choice(CMP), n, rng.choice(leaves_num())))
-        cases.append(('cmp', rng.choice(CMP), rng.choice(leaves_num()), n))
-    cases += shapes_depth2(rng, 8 if deep else 3)
-    nrand = ctx.budget(5000, 120000)
-    for _ in range(nrand):
-        cases.append(rnd_bool(rng, rng.choice([2, 3, 3, 4, 4, 5, 6])))
-    return cases, n_corpus
-
-
-# --------------------------------------------------------------------------- shrinking
-def subtrees_bool(t):
-    k = t[0]
-    if k in ('and&', 'or|'):
-        yield t[1]
-        yield t[2]
-        for s in (t[1], t[2]):
-            for x in subtrees_bool(s):
-                yield x
-    elif k in ('AND', 'OR'):
-        for s in t[1]:
-            yield s
-            for x in subtrees_bool(s):
-                yield x
-    elif k in ('not~', 'NOT'):
-        yield t[1]
-        for x in subtrees_bool(t[1]):
-            yield x
-
-
-def shrink(t):
-    """smallest boolean subtree that still fails the oracle"""
-    best = t
-    for s in subtrees_bool(t):
-        if size(s) < size(best):
-            f = oracle(s, run_impl(s))
-            if f:
-                best = s
-    return best
-
-
 # --------------------------------------------------------------------------- run
 def run(ctx):
     e = env()
@@ -1172,6 +922,26 @@ def run(ctx):
             ctx.compare('selected rows: model parse+ev (three precedence tables) = Cls.select', {'tree': s},
                         ans[2], ' '.join([impl_sel] * 3))
             ctx.compare('reference parser recovers the built tree (three precedence tables)', {'tree': s}, ans[3], 'ok ok ok')
+    # oracle-only stream (not modelled in Lean): IN / NOT IN against a sub-select, nested in AND / OR / NOT.
+    # INSubquery does not parenthesise its left operand; with SQL's own precedences the text still means the tree.
+    nsub = ctx.budget(600, 10000)
+    for i in range(nsub):
+        t = rnd_bool_sub(ctx.rng, ctx.rng.choice([1, 2, 3, 4]))
+        if not has_sub(t):
+            continue
+        s = ser(t)
+        res = run_impl(t, flip=i)
+        fails = oracle(t, res, text_level=False)
+        ctx.case(s, nontrivial=True, kind='subquery-depth%d' % depth(t))
+        if fails is None:
+            ctx.count('skipped:int64-overflow')
+            continue
+        if fails:
+            kind, text = fails[0]
+            key = 'C03:subquery-%s:%s' % (kind, s)
+            if key not in reported:
+                reported.add(key)
+                ctx.oracle_fail(key, text, {'tree': to_json(t), 'ser': s})
     ctx.note('outside the well-typed fragment (INSubquery / LIKE whose left operand renders starting with "(" or as NOT …) '
              'the renderer does not parenthesise; not part of the theorem (typing hypothesis)')
     ctx.note('`x IN ()` is what IN(x, []) renders; false on SQLite (executed), a syntax error on MySQL/PostgreSQL (not executable here)')
